@@ -19,7 +19,7 @@ TECHNIQUE = ("runtime monitoring: call-log exactly-once/never-else monitor + per
 RULE = ("seeded case sets (1-4 case args, 1-8 distinct cases sharing coordinates, dict/tuple/single-dict "
         "spelling, keys in varying order; argument values incl. bool/numpy scalars/odd strings, and one argument mixing numbers and strings whose union cannot be sorted) given as list / tuple / iterator / generator / zip; overlap requests in dict and positional spelling) x optional sub-grids x result kinds (int/float/bool/str/complex/tuple/"
         "nested list/ndarray/mixed/dict/Dataset/DataArray) x shuffle x flat x split x entry point "
-        "(combo_runner, case_runner, Runner.run_cases and Harvester.harvest_cases with the argument names of positional cases given to the Runner, sub-grids as mappings); distinct by (case-set shape, union sizes, sub-grid shape, kind, options), "
+        "(combo_runner, case_runner, Runner.run_cases and Harvester.harvest_cases with the argument names of positional cases given to the Runner, sub-grids as mappings); a diagonal case set for every result kind; results holding empty sequences; cases as non-dict mappings; argument names read off plain / keyword-only / decorated functions; the caller's case dicts compared after the call; distinct by (case-set shape, union sizes, sub-grid shape, kind, options), "
         "non-trivial when at least one slot of the grid is un-requested or >= 2 settings run")
 ASSUMPTIONS = [
     "a 'missing' slot is judged by: every leaf is NaN or None and np.shape equals the real result's (the spelling NaN vs None is not judged)",
